@@ -76,6 +76,19 @@ def cases(tier, rng):
             ops += ["send r10.33", "send r10.34", "wire a", "wire b"]
             out.append("p%d.a.stall sock %s / %s" % (k, sock, " / ".join(ops)))
             k += 1
+    # a subscriber whose connection broke (noticed by the publisher's own write, at the high-water mark) comes back under
+    # the same identity: the new connection is a subscriber like any other from then on
+    for sock in ("PUB", "XPUB"):
+        for idl in (1, 16):
+            ident = W.tok(b"S" * idl)
+            sub = W.tok(W.msg([b"\x01"]))
+            after = ["settle"] if sock == "PUB" else ["recv"]
+            ops = ["attach a SUB id=" + ident, "attach b SUB", "feed a " + sub] + after + ["feed b " + sub] + after
+            ops += ["wmode a broken=BrokenPipe", "send r70000.41", "send r70000.42", "send r70000.43", "send r10.44", "dropped a", "wire b"]
+            ops += ["attach c SUB id=" + ident, "feed c " + sub] + after
+            ops += ["send 6d31", "send 6d32", "send 6d33;74", "wire c", "wire b", "dropped c"]
+            out.append("g%d sock %s / %s" % (k, sock, " / ".join(ops)))
+            k += 1
     out += fan_cases(tier, rng, k)
     return out
 
@@ -208,6 +221,20 @@ def judge(line, obs, orc):
         return None
     if sp[0].startswith("f"):
         return fan_judge(line, obs)
+    if sp[0].startswith("g"):
+        t, po = S.pair_ops_obs(line, obs)
+        for op, tk in po:
+            if op[0] == "send" and tk != "s=ok":
+                return "publishing did not return promptly with success: " + str(tk)
+        wc = [tk for op, tk in po if op[0] == "wire" and op[1] == "c"][0].split("=", 1)[1]
+        want = (W.msg([b"m1"]) + W.msg([b"m2"]) + W.msg([b"m3", b"t"])).hex()
+        if wc != want:
+            return ("a subscriber that came back under the identity of a connection the publisher had found broken did not get "
+                    "every matching message afterwards: got %s, expected %s" % (wc[:80], want))
+        dc = [tk for op, tk in po if op[0] == "dropped" and op[1] == "c"][0]
+        if "w" in dc.split("=", 1)[1]:
+            return "the healthy new connection of a returning subscriber was dropped by the publisher: " + dc
+        return None
     # real publisher
     slow = sp[0].split(".")[1]
     t, po = S.pair_ops_obs(line, obs)
